@@ -737,3 +737,22 @@ by apply: eq_bigr => d _; rewrite -van_loan_coeff.
 Qed.
 
 End GeneratedCoefficients.
+
+(* ------------------------------------------------------------------ *)
+(** * Positive semidefiniteness of the noise matrix: only for the exact
+      zero-dynamics instance (the general statement needs the analytic integral) *)
+Section QdPsdPartial.
+Variable F : realFieldType.
+Variable n : nat.
+
+Lemma psd_scale (Q : 'M[F]_n) (t : F) : 0 <= t -> psd Q -> psd (t *: Q).
+Proof.
+move=> t0 pQ x; rewrite -scalemxAr -scalemxAl mxE.
+by rewrite mulr_ge0.
+Qed.
+
+Lemma zero_dynamics_psd (Q : 'M[F]_n) (dt : F) : 0 <= dt -> psd Q ->
+  psd (cpm_ret1 (@exp_upto F (n + n) 2) 0 Q dt).
+Proof. by move=> t0 pQ; have [_ ->] := zero_dynamics Q dt; apply: psd_scale. Qed.
+
+End QdPsdPartial.
